@@ -75,7 +75,7 @@ func (rn *runner) cliMain(r *common.RNG, nBatch int) {
 	var batches []*batch
 	// corpus scripts first, one per batch, with and without -continue as recorded
 	for _, c := range loadCorpus(rn.f.Corpus) {
-		if c.Cmds || c.HasCond || c.Upd || c.Ree || c.Uniq {
+		if c.Cmds || c.HasCond || c.Upd || c.Ree || c.Uniq || c.DL != 0 {
 			continue
 		}
 		cc := *c
